@@ -126,6 +126,8 @@ type Scenario struct {
 	// seconds before the Workstream is constructed. No API thread is started.
 	BootStates []string `json:"bootStates,omitempty"`
 	BootAgeSec int      `json:"bootAge,omitempty"`
+	// CancelStartCtx: the context handed to Start is cancelled as soon as Start has returned.
+	CancelStartCtx bool `json:"cancelStartCtx,omitempty"`
 	// SlowReads: a Read issued by an API caller parks a second time after the store has answered (kind RR), so that
 	// everything else can happen between the answer and the caller acting on it.
 	SlowReads bool `json:"slowReads,omitempty"`
